@@ -2257,7 +2257,9 @@ class ktensor:
             modes[:-1] <= modes[1:]
         ), "Modes must be sorted in ascending order"
 
-        # Check the amount of data before changing anything
+        # Check the modes and the amount of data before changing anything
+        for k in modes:
+            assert -1 <= k < self.ndims, f"Invalid mode: {k}"
         needed = sum(
             self.ncomponents if k == -1 else self.shape[k] * self.ncomponents
             for k in modes
